@@ -87,6 +87,18 @@ check('C05', 'E1', 'exploration',
       'within 1 sp; ex/em excluded (font dependent).',
       'DESIGN.md 2/C05')
 
-_PENDING = {'C06': 'check not built yet in this round (planned: bounded exhaustive exploration, see DESIGN.md section 2)', 'C07': 'check not built yet in this round (planned: bounded exhaustive exploration, see DESIGN.md section 2)', 'C08': 'check not built yet in this round (planned: bounded exhaustive exploration, see DESIGN.md section 2)', 'C09': 'check not built yet in this round (planned: bounded exhaustive exploration, see DESIGN.md section 2)', 'C10': 'check not built yet in this round (planned: bounded exhaustive exploration, see DESIGN.md section 2)', 'C11': 'check not built yet in this round (planned: bounded exhaustive exploration, see DESIGN.md section 2)', 'C12': 'check not built yet in this round (planned: bounded exhaustive exploration, see DESIGN.md section 2)', 'C13': 'check not built yet in this round (planned: bounded exhaustive exploration, see DESIGN.md section 2)', 'C14': 'check not built yet in this round (planned: bounded exhaustive exploration, see DESIGN.md section 2)', 'C15': 'check not built yet in this round (planned: bounded exhaustive exploration, see DESIGN.md section 2)', 'C16': 'check not built yet in this round (planned: bounded exhaustive exploration, see DESIGN.md section 2)', 'C17': 'check not built yet in this round (planned: bounded exhaustive exploration, see DESIGN.md section 2)', 'C18': 'check not built yet in this round (planned: bounded exhaustive exploration, see DESIGN.md section 2)', 'C19': 'check not built yet in this round (planned: bounded exhaustive exploration, see DESIGN.md section 2)', 'C20': 'check not built yet in this round (planned: bounded exhaustive exploration, see DESIGN.md section 2)'}
+check('C07', 'E1', 'exploration',
+      'bounded exhaustive enumeration of documents with unique marker words per text leaf; depth-first order oracle',
+      'For every container context (body, section body, list item, quote, table cell, footnote, title, font argument) every '
+      'sequence of <= 3 (quick; <= 4 on small menus in thorough) of 28 constructs and every chain of <= 3/4 nested containers '
+      'with a 2-sequence at the bottom is parsed; the depth-first walk (arguments, then children) must yield exactly the marker '
+      'words of the source in source order (loss, duplication and reordering are each visible), every node is reached once, '
+      'parent chains lead through the actual containers, sectioning units contain only paragraphs and strictly deeper units, '
+      'no paragraph sits in a paragraph, and dash/quote substitutions occur in text but not in verbatim/\\verb/math.',
+      'Trusted: the generator (marker order is read off the generated source with a regex) and the stated charsub expectation. '
+      'One open finding (paragraph-less environments are never normalized).',
+      'DESIGN.md 2/C07')
+
+_PENDING = {'C06': 'check not built yet in this round (planned: bounded exhaustive exploration, see DESIGN.md section 2)', 'C08': 'check not built yet in this round (planned: bounded exhaustive exploration, see DESIGN.md section 2)', 'C09': 'check not built yet in this round (planned: bounded exhaustive exploration, see DESIGN.md section 2)', 'C10': 'check not built yet in this round (planned: bounded exhaustive exploration, see DESIGN.md section 2)', 'C11': 'check not built yet in this round (planned: bounded exhaustive exploration, see DESIGN.md section 2)', 'C12': 'check not built yet in this round (planned: bounded exhaustive exploration, see DESIGN.md section 2)', 'C13': 'check not built yet in this round (planned: bounded exhaustive exploration, see DESIGN.md section 2)', 'C14': 'check not built yet in this round (planned: bounded exhaustive exploration, see DESIGN.md section 2)', 'C15': 'check not built yet in this round (planned: bounded exhaustive exploration, see DESIGN.md section 2)', 'C16': 'check not built yet in this round (planned: bounded exhaustive exploration, see DESIGN.md section 2)', 'C17': 'check not built yet in this round (planned: bounded exhaustive exploration, see DESIGN.md section 2)', 'C18': 'check not built yet in this round (planned: bounded exhaustive exploration, see DESIGN.md section 2)', 'C19': 'check not built yet in this round (planned: bounded exhaustive exploration, see DESIGN.md section 2)', 'C20': 'check not built yet in this round (planned: bounded exhaustive exploration, see DESIGN.md section 2)'}
 for _p, _why in _PENDING.items():
     NOT_APPLICABLE.append({'property_id': _p, 'reason': _why})
